@@ -515,7 +515,27 @@ impl Policy {
                         .copied()
                         .filter(|t| is_writer_api(apis.get(t).map(|x| x.as_str()).unwrap_or("")))
                         .collect();
-                    if reader_in_window && !writers.is_empty() && rng.chance(1, 2) {
+                    // compare-and-swap window: a cas/rcu caller sits between its internal read and
+                    // its exchange (or just after a failed exchange): let another writer do a
+                    // whole write (or two) there
+                    let cas_waiters: Vec<usize> = ids
+                        .iter()
+                        .copied()
+                        .filter(|t| {
+                            let api = apis.get(t).map(|x| x.as_str()).unwrap_or("");
+                            let s = &parked[t].site;
+                            (api.starts_with("cas") || api.starts_with("rcu"))
+                                && (s.contains("compare_and_swap#0") || s.contains("attempt#0") || s.contains("attempt#1") || s.contains("fallback#0"))
+                        })
+                        .collect();
+                    let others: Vec<usize> = writers.iter().copied().filter(|t| !cas_waiters.contains(t)).collect();
+                    if !cas_waiters.is_empty() && !others.is_empty() && rng.chance(1, 2) {
+                        let wt = others[rng.range(0, others.len())];
+                        if rng.chance(1, 2) {
+                            *burst = Some((wt, rng.range(20, 160)));
+                        }
+                        wt
+                    } else if reader_in_window && !writers.is_empty() && rng.chance(1, 2) {
                         let wt = writers[rng.range(0, writers.len())];
                         if rng.chance(1, 3) {
                             // let that writer complete (most of) a whole write inside the window
@@ -604,9 +624,26 @@ fn check_window<S: Strategy<T>>(sh: &Shared<S>, w: usize, c: usize, i0: usize, g
     }
 }
 
+/// `compare_and_swap(current: Guard<T>, ..)` (the guard by value) exists for the default strategy
+/// only; elsewhere the guard is passed by reference and dropped right after the call
+pub trait ByValue: Strategy<T> + CaS<T> + Sized {
+    fn cas_guard_by_value(a: &ArcSwapAny<T, Self>, cur: Guard<T, Self>, new: T) -> Guard<T, Self> {
+        let r = a.compare_and_swap(&*cur, new);
+        drop(cur);
+        r
+    }
+}
+impl ByValue for arc_swap::strategy::DefaultStrategy {
+    fn cas_guard_by_value(a: &ArcSwapAny<T, Self>, cur: Guard<T, Self>, new: T) -> Guard<T, Self> {
+        a.compare_and_swap(cur, new)
+    }
+}
+#[allow(deprecated)]
+impl ByValue for arc_swap::strategy::test_strategies::FillFastSlots {}
+
 fn exec_op<S>(sh: &Shared<S>, w: usize, op: &Op) -> String
 where
-    S: Strategy<T> + CaS<T> + Strategy<T1> + Default + Send + Sync + 'static,
+    S: Strategy<T> + CaS<T> + ByValue + Strategy<T1> + Default + Send + Sync + 'static,
 {
     // Helpers to take / put registers without holding the lock across scheduling points.
     macro_rules! take_h { ($i:expr) => {{ let mut r = lock(&sh.regs); if $i < r.h.len() { let x = r.h[$i].take(); if x.is_some() { crate::race::reg_take(b'h', $i); } x } else { None } }}; }
@@ -939,6 +976,38 @@ where
             done!(*c);
             format!("g{}={}", g, id)
         }
+        Op::CasV { c, cur, new, g } => {
+            if !g_free!(*g) && *g != *cur {
+                return "skip".into();
+            }
+            let a = match cont!(*c) {
+                None => return "skip".into(),
+                Some(a) => a,
+            };
+            let newv = match take_h!(*new) {
+                None => {
+                    done!(*c);
+                    return "skip".into();
+                }
+                Some(v) => v,
+            };
+            let (cg, _) = match take_g!(*cur) {
+                None => {
+                    put_h!(*new, newv);
+                    done!(*c);
+                    return "skip".into();
+                }
+                Some(x) => x,
+            };
+            // `current` moves into the call: its destructor (possibly the last reference of a value
+            // whose destructor panics) runs inside compare_and_swap
+            let res = S::cas_guard_by_value(&a, cg, newv);
+            touch(&res);
+            let id = ident(&res);
+            put_g!(*g, (res, id.clone()));
+            done!(*c);
+            format!("g{}={}", g, id)
+        }
         Op::Rcu { c, out } => {
             if !h_free!(*out) {
                 return "skip".into();
@@ -1077,7 +1146,7 @@ pub struct RunCfg {
 
 pub fn run<S>(prog: &Program, mut policy: Policy, cfg: &RunCfg) -> Outcome
 where
-    S: Strategy<T> + CaS<T> + Strategy<T1> + Default + Send + Sync + 'static,
+    S: Strategy<T> + CaS<T> + ByValue + Strategy<T1> + Default + Send + Sync + 'static,
     Guard<T, S>: Send,
 {
     verif::reset_list();
